@@ -7,7 +7,7 @@
    the call returns within the bound (retry sleep + EOF sleep + probe window), the wait group
    drains, every accepted socket sees the end of the stream.
    (b) model: timed replay (Model.Client.run_life) and acceptance of the untimed callback
-   trace by the two-process transition system (Model.Lifecycle.accepts). *)
+   trace by the main / writer / watcher transition system (Model.Lifecycle.accepts_trace). *)
 From RP Require Import Lib.Base Lib.Sexp Lib.Strings Model.Net Model.Client Model.Lifecycle Model.Teardown Spec.NetSpec Run.NetCommon.
 From Coq Require Import String.
 Open Scope string_scope.
